@@ -39,13 +39,15 @@ def abs_trap(trap):
 def run_word(word, community="public", mode="protocol", debuglog=False):
     """word: list of dict(kind, raw bytes, src key)"""
     with debug_logging(debuglog):
-        t = _run_word(word, community, mode)
+        t = _run_word(word, community, "protocol" if mode == "burst" else mode, burst=(mode == "burst"))
+    if mode == "burst":
+        t["scenario"]["mode"] = "burst"
     if debuglog:
         t["scenario"]["debuglog"] = True
     return t
 
 
-def _run_word(word, community="public", mode="protocol"):
+def _run_word(word, community="public", mode="protocol", burst=False):
     import puresnmp.api.raw as RAW
     from puresnmp.transport import SNMPTrapReceiverProtocol
     from puresnmp import V2C
@@ -59,6 +61,8 @@ def _run_word(word, community="public", mode="protocol"):
     got = []
 
     async def user_callback(trap):
+        if burst:
+            await asyncio.sleep(0.001)          # a callback that really suspends (I/O) before it is done with the notification
         got.append(trap)
     try:
         if mode == "protocol":
@@ -66,7 +70,29 @@ def _run_word(word, community="public", mode="protocol"):
             RAW.register_trap_callback(user_callback, "127.0.0.1", 16299, V2C(community), loop)
             proto = captured["proto"]
 
+            async def feed_burst():
+                # all datagrams are read in ONE event-loop iteration (a burst), then the loop runs until everything is delivered
+                for d in word:
+                    try:
+                        with cpu_budget(4, mem_bytes=4 << 30):
+                            proto.datagram_received(bytes(d["raw"]), SRC[d["src"]])
+                        raised = ""
+                    except (CpuBudget, MemoryError):
+                        raised = "CPU_BUDGET"
+                    except Exception as e:  # noqa
+                        raised = exc_name(e)
+                    events.append(dict(e="dgram", kind=d["kind"], raw=list(d["raw"]), src=list(SRC[d["src"]][:2]), raised=raised))
+                for _ in range(40):
+                    await asyncio.sleep(0.002)
+                for t in got:
+                    try:
+                        events.append(dict(e="callback", **abs_trap(t)))
+                    except Exception as e:  # noqa
+                        events.append(dict(e="callback", origin=["?", 0], vbs=[[[0], 0, [ord(c) for c in exc_name(e)]]]))
+
             async def feed():
+                if burst:
+                    return await feed_burst()
                 for d in word:
                     n0 = len(got)
                     try:
